@@ -4,6 +4,7 @@ package canonicalizer
 
 import (
 	"github.com/nlnwa/whatwg-url/internal/vnd"
+	model "github.com/nlnwa/whatwg-url/internal/whatwgmodel"
 	"github.com/nlnwa/whatwg-url/url"
 )
 
@@ -69,8 +70,27 @@ func verifCheckIdempotent(p url.Parser, in string) (string, bool) {
 }
 
 // sortClass: the open finding shared with C11/C16: sorting re-serializes the decoded list without
-// escaping & = + %HH (class: the query text contains % or +, the only ways to get such a decoded name/value).
-func sortClass(in string) bool { return hasByte(in, '%') || hasByte(in, '+') }
+// escaping & = + %HH. The class is stated on the decoded parameter list, exactly as in C11/C16: the
+// query of the input - or of its first canonical form, which is what the second pass reads - decodes
+// to a name containing & = + or a %HH triplet, or a value containing & + or a %HH triplet. Anything
+// else that is not a fixed point under a sorting profile is a different violation and is reported.
+func sortClass(p url.Parser, in string) bool {
+	if queryDecodesToSeparators(in) {
+		return true
+	}
+	if u, err := p.Parse(in); err == nil {
+		return queryDecodesToSeparators(u.String())
+	}
+	return false
+}
+
+func queryDecodesToSeparators(in string) bool {
+	mu, ok := model.Parse(in, nil)
+	if !ok || !mu.HasQuery {
+		return false
+	}
+	return classFSer(model.FormParse(mu.Query))
+}
 
 // VerifC17IdemComposed: every profile composed from the canonicalizer's own options, all strings.
 func VerifC17IdemComposed() {
@@ -79,7 +99,7 @@ func VerifC17IdemComposed() {
 	msg, ok := verifCheckIdempotent(p, in)
 	vnd.Cover("canonicalized", ok)
 	if msg != "" {
-		vnd.Known("form-serialize-unescaped", p.sortQuery != NoSort && !p.repeatedPercentDecoding && sortClass(in))
+		vnd.Known("form-serialize-unescaped", p.sortQuery != NoSort && !p.repeatedPercentDecoding && sortClass(p, in))
 		vnd.Fail(msg)
 	}
 }
@@ -90,7 +110,7 @@ func VerifC17IdemQuery() {
 	in := "http://h/p?" + vnd.StrOver(vnd.Len(vnd.Param("C17.KQuery", 3, 4)), "ab&=+%256 #") + "#f"
 	msg, _ := verifCheckIdempotent(p, in)
 	if msg != "" {
-		vnd.Known("form-serialize-unescaped", p.sortQuery != NoSort && !p.repeatedPercentDecoding && sortClass(in))
+		vnd.Known("form-serialize-unescaped", p.sortQuery != NoSort && !p.repeatedPercentDecoding && sortClass(p, in))
 		vnd.Fail(msg)
 	}
 }
@@ -102,7 +122,7 @@ func VerifC17IdemNamed() {
 	in := windowInput(vnd.Param("C17.KNamed", 2, 3))
 	msg, _ := verifCheckIdempotent(named[pi], in)
 	if msg != "" {
-		vnd.Known("form-serialize-unescaped", pi == 1 && sortClass(in))
+		vnd.Known("form-serialize-unescaped", pi == 1 && sortClass(named[pi], in))
 		vnd.Fail(msg)
 	}
 }
@@ -248,7 +268,7 @@ func VerifC17IdemPairs() {
 	msg, _ := verifCheckIdempotent(p, in)
 	if msg != "" {
 		// class: sorting WITHOUT repeated decoding (with it, names and values are stored pre-escaped)
-		vnd.Known("form-serialize-unescaped", pick < 2 && sortClass(in))
+		vnd.Known("form-serialize-unescaped", pick < 2 && sortClass(p, in))
 		vnd.Fail(msg)
 	}
 }
